@@ -8,6 +8,7 @@ import (
 	"strings"
 	"sync"
 	"sync/atomic"
+	"syscall"
 	"testing"
 	"time"
 
@@ -421,6 +422,12 @@ func (m *caseMon) judge(es []bbrig.Emission) int {
 	return counted
 }
 
+func cpuSeconds() float64 {
+	var ru syscall.Rusage
+	_ = syscall.Getrusage(syscall.RUSAGE_SELF, &ru)
+	return float64(ru.Utime.Sec+ru.Stime.Sec) + float64(ru.Utime.Usec+ru.Stime.Usec)/1e6
+}
+
 var current atomic.Pointer[caseMon]
 var poisoned atomic.Bool
 
@@ -648,7 +655,7 @@ func TestC05(t *testing.T) {
 		}
 	})
 	time.Sleep(5 * time.Millisecond)
-	r.Logf("built %d scripts in %.1fs", n1+n2, time.Since(t0).Seconds())
+	r.Logf("built %d scripts in %.1fs (cpu %.1fs)", n1+n2, time.Since(t0).Seconds(), cpuSeconds())
 	t0 = time.Now()
 
 	samples := 0
@@ -677,7 +684,7 @@ func TestC05(t *testing.T) {
 			r.Sample(map[string]any{"case": cp, "script_head": descs(b.steps, 10), "cleanup_cycles": c})
 		}
 	}
-	r.Logf("single-threaded phase: %d cases in %.1fs", n1, time.Since(t0).Seconds())
+	r.Logf("single-threaded phase: %d cases in %.1fs (cpu so far %.1fs)", n1, time.Since(t0).Seconds(), cpuSeconds())
 	t0 = time.Now()
 	samples = 0
 	for i := range cases2 {
@@ -705,7 +712,7 @@ func TestC05(t *testing.T) {
 		}
 	}
 
-	r.Logf("concurrent phase: %d cases in %.1fs", n2, time.Since(t0).Seconds())
+	r.Logf("concurrent phase: %d cases in %.1fs (cpu so far %.1fs)", n2, time.Since(t0).Seconds(), cpuSeconds())
 	if r.Counter("cleanup_cycles_observed") == 0 || r.Counter("pool_puts_observed") == 0 {
 		r.Inconclusive("no cleanup cycle / no record release was observed")
 	}
